@@ -131,6 +131,16 @@ def h_fmtp_spacing(ctx, n, variant=0):
     for k in keys:
         if k in b and k in a:
             ctx.check(sx.deep_eq(a[k], b[k]), "both-spellings-give-the-same-values")
+    # untidy but accepted lists (trailing / doubled separators, whitespace-only segments): one round
+    # of parse-and-serialise reaches a fixed point
+    from aiortc.sdp import parameters_to_sdp
+
+    tail = ctx.choice("tail", ["", ";", "; ", " ;", "; ;", ";;"])
+    mid = ctx.choice("mid", [";", "; ", "; ;", ";;", " ; "])
+    untidy = (mid.join("%s=%s" % (k, _str(v)) for k, v in items) if not sx.active() else sx_join_items(items, mid)) + tail
+    once = parameters_to_sdp(parameters_from_sdp(untidy))
+    twice = parameters_to_sdp(parameters_from_sdp(once))
+    ctx.check(sx.eq(once, twice), "untidy-fmtp-list-reaches-a-fixed-point-after-one-round", "tail=%r mid=%r" % (tail, mid))
     ctx.observe("n", len(a))
 
 
@@ -313,7 +323,7 @@ def _desc_jobs(tier):
 
 
 HARNESSES = {
-    "fmtp-spacing": Harness("fmtp-spacing", h_fmtp_spacing, lambda tier: [{"n": n, "variant": v} for n in (2, 3) for v in range(2)], style="DIFF (two spellings)", bounds="fmtp lists of 2..3 parameters (names from the H.264 / RTX set, integer values symbolic 0..255, token values 2 symbolic letters) written with ';' and with '; '", encoded=["aiortc.sdp:parameters_from_sdp"], stubs=STUBS, outside=OUT, twin="fmtp-parsed"),
+    "fmtp-spacing": Harness("fmtp-spacing", h_fmtp_spacing, lambda tier: [{"n": n, "variant": v} for n in (2, 3) for v in range(2)], style="DIFF (two spellings)", bounds="fmtp lists of 2..3 parameters (names from the H.264 / RTX set, integer values symbolic 0..255, token values 2 symbolic letters) written with ';' and with '; '; plus untidy lists (separator from {';', '; ', '; ;', ';;', ' ; '}, tail from {'', ';', '; ', ' ;', '; ;', ';;'}) for the fixed-point check", encoded=["aiortc.sdp:parameters_from_sdp", "aiortc.sdp:parameters_to_sdp"], stubs=STUBS, outside=OUT, twin="fmtp-parsed"),
     "signaling": Harness("signaling", h_signaling, lambda tier: [{"kind": k, "variant": v} for k in ("plain", "all") for v in range(3 if tier == "quick" else 6)], style="RT", bounds="candidates as in the candidate harness (IPv4 and IPv6 addresses) through contrib.signaling object_to_string/object_from_string", encoded=["aiortc.contrib.signaling:object_to_string", "aiortc.contrib.signaling:object_from_string"] + ENC, stubs=STUBS + ["json.dumps/loads -> lossless stand-in (the JSON text is not modelled)"], outside=OUT, twin="signalled"),
     "candidate": Harness("candidate", h_candidate, lambda tier: [{"kind": k, "variant": v} for k in ("plain", "raddr", "tcptype", "all") for v in range(6)], style="RT", bounds="all integer fields symbolic over their full range (lazy decimal atoms), foundation 2 symbolic letters, ip/protocol/type/tcptype from small sets, with and without raddr/rport/tcptype", encoded=ENC, stubs=STUBS, outside=OUT, twin="candidate-parsed"),
     "description": Harness("description", h_description, _desc_jobs, style="RT", bounds="<=2 media sections (audio/video/application, both SCTP syntaxes), <=2 codecs with symbolic payload type / clock rate / channels / fmtp int, str and flag-like parameters / <=2 feedback entries, header extension, 2 SSRCs + cname + FID group, ICE ufrag/pwd/options, one candidate, end-of-candidates, fingerprint, setup role, sctp-port, max-message-size, BUNDLE and WMS groups, session and media c= lines", encoded=ENC, stubs=STUBS, outside=OUT, twin="parsed", opts={"samples": 1}),
